@@ -703,7 +703,7 @@ def decorate(draw, prog, abi=True, rename=True, disable=True, density=4, namespa
     return placed
 
 
-def add_trait(draw, prog, name="DvTrait"):
+def add_trait(draw, prog, name="DvTrait", disable_for=None):
     """kotlin only (the one backend with trait support): a bridged trait whose methods take primitives / enums / structs, and a struct
     method taking `impl DvTrait`"""
     mod = prog["modules"][0]
@@ -724,8 +724,12 @@ def add_trait(draw, prog, name="DvTrait"):
         params = [["a%d" % j, ty()] for j in range(draw(st.integers(0, 3)))]
         ret = draw(st.sampled_from([None, ["prim", "i32"], ["prim", "u8"], ["prim", "f64"]]))
         methods.append({"name": "go%d" % i, "params": params, "ret": ret})
+    if disable_for and draw(st.integers(0, 2)) == 0:
+        # one method switched off for a backend: its vtable slot stays (the layout is the proc macro's)
+        draw(st.sampled_from(methods))["disabled_for"] = [disable_for]
     prog.setdefault("traits", []).append({"name": name, "methods": methods})
-    text = "pub trait %s { " % name + " ".join("fn %s(&self%s)%s;" % (
+    text = "pub trait %s { " % name + " ".join("%sfn %s(&self%s)%s;" % (
+        "".join("#[diplomat::attr(%s, disable)] " % b_ for b_ in m.get("disabled_for", [])),
         m["name"], "".join(", %s: %s" % (n, ir.rs_type(t)) for n, t in m["params"]), (" -> " + ir.rs_type(m["ret"])) if m["ret"] else "") for m in methods) + " }"
     mod.setdefault("raw_items", []).append(text)
     host = draw(st.sampled_from(hosts))
